@@ -723,8 +723,62 @@ func fieldLoad(v ssa.Value) (*types.Var, ssa.Value, bool) {
 		if st != nil {
 			return st.Field(x.Field), x.X, true
 		}
+	case *ssa.Call:
+		// atomic load of a field: f.Load()
+		if n := calleeName(x.Common()); strings.HasPrefix(n, "(*sync/atomic.") && strings.HasSuffix(n, ").Load") && len(x.Call.Args) == 1 {
+			return fieldOfAddr(x.Call.Args[0])
+		}
+		// accessor method of the module returning a receiver field (single result)
+		if f, ok := accessorField(x, 0); ok {
+			return f, x.Call.Args[0], true
+		}
+	case *ssa.Extract:
+		if call, ok := x.Tuple.(*ssa.Call); ok {
+			if f, ok := accessorField(call, x.Index); ok {
+				return f, call.Call.Args[0], true
+			}
+		}
 	}
 	return nil, nil, false
+}
+
+// accessorField: call is a static call of a small module method whose idx-th result is, on every
+// return, a load of one field of its receiver (e.g. `func (s *Service) slots() (a, r, c)` under its lock).
+func accessorField(call *ssa.Call, idx int) (*types.Var, bool) {
+	f := call.Call.StaticCallee()
+	if f == nil || f.Blocks == nil || f.Signature.Recv() == nil || f.Pkg == nil || !strings.HasPrefix(f.Pkg.Pkg.Path(), modulePath) || len(call.Call.Args) == 0 {
+		return nil, false
+	}
+	if idx >= f.Signature.Results().Len() {
+		return nil, false
+	}
+	n := 0
+	for _, b := range f.Blocks {
+		n += len(b.Instrs)
+	}
+	if n > 60 {
+		return nil, false
+	}
+	var field *types.Var
+	for _, ret := range returnsOf(f) {
+		if f.Recover != nil && ret.Block() == f.Recover {
+			continue
+		}
+		v := retVal(ret, idx)
+		u, ok := v.(*ssa.UnOp)
+		if !ok || u.Op != token.MUL {
+			return nil, false
+		}
+		fv, base, ok := fieldOfAddr(u.X)
+		if !ok || base != ssa.Value(f.Params[0]) {
+			return nil, false
+		}
+		if field != nil && field != fv {
+			return nil, false
+		}
+		field = fv
+	}
+	return field, field != nil
 }
 
 func isLoadOfField(v ssa.Value, f *types.Var) bool {
@@ -798,6 +852,12 @@ func (w *World) writesOfField(f *types.Var) []fieldWrite {
 				case *ssa.MapUpdate:
 					if fv, base, ok := fieldLoad(x.Map); ok && fv == f {
 						out = append(out, fieldWrite{fn, in, nil, base, "mapupdate"})
+					}
+				case *ssa.Call:
+					if n := calleeName(x.Common()); strings.HasPrefix(n, "(*sync/atomic.") && strings.HasSuffix(n, ").Store") && len(x.Call.Args) == 2 {
+						if fv, base, ok := fieldOfAddr(x.Call.Args[0]); ok && fv == f {
+							out = append(out, fieldWrite{fn, in, x.Call.Args[1], base, "atomic-store"})
+						}
 					}
 				}
 			}
